@@ -80,10 +80,11 @@ def make_traced_guard(Guard, policy, cache, hook: Callable[[str], None] | None =
         def __getattribute__(self, name):
             if name in SHARED and enabled["on"]:
                 # `self._policy_gen += 1` reads then writes: the write is the announced step
-                if name != "policy" or True:
-                    if not (name == "_policy_gen" and getattr(_tl, "in_update", False)) and name != "policy":
-                        call_hook("rd " + name)
-                    log().append("rd " + name)
+                # reads made by set_policy itself (`self._policy_gen += 1`, hashing / compiling `self.policy`) belong to the announced
+                # write step; a read of `policy` by an EVALUATION (interpreter fall-back) is a step of its own
+                if not (name in ("_policy_gen", "policy") and getattr(_tl, "in_update", False)):
+                    call_hook("rd " + name)
+                log().append("rd " + name)
             return super().__getattribute__(name)
 
         def __setattr__(self, name, value):
